@@ -59,6 +59,10 @@ type observation struct {
 	AllEffects [][]any
 	AllYieldAt []int
 	AllResult  string
+	// the same parsed program evaluated a second time by a new evaluator (uninterrupted runs only): what the
+	// platform saw and how it ended
+	AgainEffects [][]any
+	AgainResult  string
 	HandlerSet []string
 }
 
@@ -110,6 +114,17 @@ func execute(src string, inputs []string, events []eventSpec, stopAt int, failFa
 				break
 			}
 		}
+	}
+	if stopAt == 0 && len(events) == 0 {
+		// a program is a value: running the same syntax tree again, on a new evaluator, gives the same run
+		evaluator.RandSource = rand.New(rand.NewSource(seed)) //nolint:gosec
+		plat2 := newRecPlatform(inputs, 0)
+		ev2 := evaluator.NewEvaluator(plat2)
+		plat2.y.ev = ev2
+		ev2.TestInfo.FailFast = failFast
+		ev2.TestInfo.NoTestSummary = noSumm
+		o.AgainResult = classify(ev2.Eval(prog))
+		o.AgainEffects = plat2.Effects
 	}
 	o.AllEffects = plat.Effects
 	o.AllYieldAt = plat.YieldAt
@@ -182,6 +197,10 @@ func stageRun(raw json.RawMessage) Result {
 		obs["parseErr"] = o.ParseErr.Error()
 		return Result{OK: false, Obs: obs, Diff: "specification says this program is well-formed, parser rejects it: " + firstLine(o.ParseErr.Error())}
 	}
+	if o.AgainResult != "" && (o.AgainResult != o.Result || !reflect.DeepEqual(normEffects(o.AgainEffects), normEffects(o.Effects))) {
+		return Result{OK: false, Obs: obs, Diff: fmt.Sprintf("the same syntax tree run a second time (new evaluator, same inputs and seed) behaves differently: %s with %d effects, then %s with %d effects; first difference: %s",
+			o.Result, len(o.Effects), o.AgainResult, len(o.AgainEffects), firstEffectDiff(normEffects(o.Effects), normEffects(o.AgainEffects)))}
+	}
 	if c.Sound {
 		return soundVerdict(c, o, obs)
 	}
@@ -218,6 +237,15 @@ func stageRun(raw json.RawMessage) Result {
 		}
 	}
 	return Result{OK: true}
+}
+
+func firstEffectDiff(a, b []any) string {
+	for i := 0; i < len(a) && i < len(b); i++ {
+		if !reflect.DeepEqual(a[i], b[i]) {
+			return fmt.Sprintf("effect %d: %s vs %s", i, effectString(a[i]), effectString(b[i]))
+		}
+	}
+	return fmt.Sprintf("%d vs %d effects", len(a), len(b))
 }
 
 func firstLine(s string) string {
